@@ -219,10 +219,17 @@ def alias_probe(ctx, mon, rng, ex, hg):
                 if isinstance(r, L.AnsiString):
                     ctx.violation('result-is-source', {'op': op}, mech='result-is-source:' + op['m'])
                 return
-        # (1) mutate results, re-observe sources
+        # (0) the pieces of one result are independent objects too
+        for i, r in enumerate(results):
+            if any(r is q for q in results[:i]):
+                ctx.ev('result-pieces-distinct')
+                ctx.violation('result-pieces-are-one-object', {'op': op, 'piece': i}, mech='aliasing-between-pieces:' + op['m'])
+                return
+        # (1) mutate results, re-observe sources (and the sibling pieces)
         snaps = [Snap(L, s) for s in srcs]
-        for r in results:
+        for ri, r in enumerate(results):
             if isinstance(r, L.AnsiString):
+                sib = [Snap(L, q) for qi, q in enumerate(results) if qi != ri]
                 try:
                     k = mutate(L, rng, r)
                 except Exception as e:
@@ -235,6 +242,13 @@ def alias_probe(ctx, mon, rng, ex, hg):
                         ctx.violation('source-changed-by-mutating-result',
                                       {'op': op, 'mutation': k, 'what': d, 'source_before': sn.o.describe()},
                                       mech='aliasing:' + op['m'])
+                        return
+                for sn in sib:
+                    d = sn.diff(L)
+                    if d:
+                        ctx.violation('sibling-piece-changed-by-mutating-piece',
+                                      {'op': op, 'mutation': k, 'what': d, 'piece_before': sn.o.describe()},
+                                      mech='aliasing-between-pieces:' + op['m'])
                         return
         # (2) mutate sources, re-observe results
         rsnaps = [Snap(L, r) for r in results]
